@@ -202,7 +202,7 @@ Proof.
     destruct k as [x|f]; constructor; cbn; auto;
       try (intros Hx; discriminate Hx).
     + destruct f; cbn in *; auto. destruct D.
-    + destruct f; cbn in *; auto. intros Hx; discriminate Hx.
+    + destruct f; cbn in *; auto; try (intros Hx; discriminate Hx).
   - (* EPostStop *)
     destruct p; try discriminate. injection H as <-.
     constructor; cbn; auto.
@@ -246,3 +246,162 @@ Qed.
 
 Theorem reachable_inv c es s : steps (init c) es = Some s -> Inv s.
 Proof. intros H. eapply steps_inv; [apply init_inv | exact H]. Qed.
+
+(* ---------------------------------------------------------------------- *)
+(* consequences: serial FIFO handling                                       *)
+
+(* the accepted sequence is, in order: what was handled, what the receiver
+   dropped when the actor ended, what is still queued; while the actor runs
+   nothing has been dropped; at most one handler is in progress (the program
+   counter holds it) and everything handled before it is finished *)
+Theorem serial_fifo c es s :
+  steps (init c) es = Some s ->
+  accepted s = handled s ++ drained s ++ queue s /\
+  (pre_drain (pc s) = true -> drained s = []) /\
+  match pc s with
+  | PHandling m => handled s = released s ++ [m]
+  | _ => released s = handled s ++ drained s
+  end.
+Proof.
+  intros H. destruct (reachable_inv _ _ _ H) as [A B C D K L J1 J2].
+  split; [exact A|]. split; [|exact C]. intros Hp. destruct (B Hp) as [Hd _]. exact Hd.
+Qed.
+
+(* no message is skipped or reordered: when the run loop polls a non-empty
+   message channel the only thing the actor task can do (short of being
+   cancelled) is to start the handler of the oldest queued message *)
+Theorem next_is_head s m q e s' :
+  pc s = PSelMsg -> queue s = m :: q -> actor_ev e = true -> step s e = Some s' ->
+  e = ECancel \/
+  (e = ESelMsg (Some m) /\ handled s' = handled s ++ [m] /\ queue s' = q /\ pc s' = PHandling m).
+Proof.
+  intros Hp Hq Ha H. destruct s as [cp qu sl st rxx p pa sw ac ha dr re ov la t].
+  cbn [pc queue] in Hp, Hq. subst p qu.
+  unfold step, step_gen in H.
+  destruct e; cbn in Ha; try discriminate Ha; cbn in H; try discriminate H.
+  - destruct m0 as [m0|]; [|discriminate].
+    destruct (msg_eqb m0 m) eqn:E; [|discriminate]. apply msg_eqb_eq in E. subst m0.
+    injection H as <-. right. cbn. repeat split; reflexivity.
+  - left. reflexivity.
+Qed.
+
+(* one at a time: while a handler runs, the actor task can only finish it *)
+Theorem handler_exclusive s x e s' :
+  pc s = PHandling x -> actor_ev e = true -> step s e = Some s' ->
+  e = ECancel \/ (e = EHandled x /\ released s' = released s ++ [x]).
+Proof.
+  intros Hp Ha H. destruct s as [cp qu sl st rxx p pa sw ac ha dr re ov la t].
+  cbn [pc] in Hp. subst p. unfold step, step_gen in H.
+  destruct e; cbn in Ha; try discriminate Ha; cbn in H; try discriminate H.
+  - destruct (msg_eqb m x) eqn:E; [|discriminate]. apply msg_eqb_eq in E. subst m.
+    injection H as <-. right. split; reflexivity.
+  - left. reflexivity.
+Qed.
+
+(* everything accepted is handled unless the actor stops or fails first: an
+   actor waiting in its run loop with an empty channel has handled everything
+   it ever accepted; and at the moment it takes the stop request (or a handler
+   fails) the handled sequence plus the queue is the accepted sequence *)
+Theorem idle_all_handled c es s :
+  steps (init c) es = Some s ->
+  (pc s = PSelStop \/ pc s = PSelMsg) -> queue s = [] ->
+  handled s = accepted s /\ released s = accepted s.
+Proof.
+  intros H Hp Hq. destruct (reachable_inv _ _ _ H) as [A B C D K L J1 J2].
+  assert (Hpd : pre_drain (pc s) = true) by (destruct Hp as [-> | ->]; reflexivity).
+  destruct (B Hpd) as [Hd _]. rewrite Hd, Hq in A. rewrite app_nil_r in A.
+  split; [symmetry; exact A|].
+  destruct Hp as [Hp|Hp]; rewrite Hp in C; rewrite C, Hd, app_nil_r; symmetry; exact A.
+Qed.
+
+Theorem stop_point_prefix c es s s' :
+  steps (init c) es = Some s -> step s (ESelStop true) = Some s' ->
+  accepted s' = handled s' ++ queue s' /\ handled s' = handled s.
+Proof.
+  intros H Hs. destruct (reachable_inv _ _ _ H) as [A B C D K L J1 J2].
+  destruct s as [cp qu sl st rxx p pa sw ac ha dr re ov la t].
+  unfold step, step_gen in Hs. cbn in Hs. destruct p; try discriminate Hs.
+  destruct sl; [|discriminate]. injection Hs as <-. cbn in *.
+  destruct (B eq_refl) as [-> _]. split; [exact A | reflexivity].
+Qed.
+
+(* ---------------------------------------------------------------------- *)
+(* lifecycle order                                                          *)
+
+Theorem lifecycle_shape c es s : steps (init c) es = Some s -> shape s.
+Proof. intros H. exact (iD _ (reachable_inv _ _ _ H)). Qed.
+
+Theorem lifecycle_gone c es s f :
+  steps (init c) es = Some s -> pc s = PGone f ->
+  match f with
+  | FStartFailed => tr s = [LPreStart false] /\ handled s = []
+  | FExit _ => exists t a b, tr s = t ++ [LPreStop a; LPostStop b] /\ started_shape t (handled s)
+  | FCancelled => cancelled_shape (tr s) (handled s)
+  end.
+Proof.
+  intros H Hp. pose proof (lifecycle_shape _ _ _ H) as D. unfold shape in D. rewrite Hp in D.
+  destruct f; exact D.
+Qed.
+
+(* handlers run only between a successful post_start and pre_stop *)
+Theorem handlers_inside_loop s m s' :
+  step s (ESelMsg (Some m)) = Some s' -> pc s = PSelMsg /\ pc s' = PHandling m.
+Proof.
+  intros H. destruct s as [cp qu sl st rxx p pa sw ac ha dr re ov la t].
+  unfold step, step_gen in H. cbn in H. destruct p; try discriminate H.
+  destruct qu as [|x q]; [discriminate|].
+  destruct (msg_eqb m x) eqn:E; [|discriminate]. apply msg_eqb_eq in E. subst x.
+  injection H as <-. split; reflexivity.
+Qed.
+
+(* ---------------------------------------------------------------------- *)
+(* calls are answered                                                       *)
+
+Theorem gone_closed c es s :
+  steps (init c) es = Some s -> is_gone s = true ->
+  rx s = false /\ closed s = true /\ forall m, step s (ESendPass m) = None.
+Proof.
+  intros H Hg. destruct (reachable_inv _ _ _ H) as [A B C D K L J1 J2].
+  unfold is_gone in Hg. destruct (pc s) eqn:Hp; try discriminate Hg.
+  cbn in K. split; [exact K|]. assert (Hc : closed s = true).
+  { unfold closed. rewrite K. apply orb_true_r. }
+  split; [exact Hc|]. intros m. unfold step, step_gen. rewrite Hc. reflexivity.
+Qed.
+
+(* once the actor is gone every accepted message had its reply port used or
+   dropped (the caller sees the reply or NoReply), except those that slipped in
+   between the receiver's drain and its disconnection *)
+Theorem call_answered c es s :
+  steps (init c) es = Some s -> is_gone s = true ->
+  forall m, In m (accepted s) -> In m (released s) \/ In m (late s).
+Proof.
+  intros H Hg m Hm. destruct (reachable_inv _ _ _ H) as [A B C D K L J1 J2].
+  unfold is_gone in Hg. destruct (pc s) eqn:Hp; try discriminate Hg.
+  rewrite <- (L eq_refl). rewrite C. rewrite A in Hm.
+  apply in_app_or in Hm. destruct Hm as [Hm|Hm]; [left; apply in_or_app; left; exact Hm|].
+  apply in_app_or in Hm. destruct Hm as [Hm|Hm]; [left; apply in_or_app; right; exact Hm|].
+  right. exact Hm.
+Qed.
+
+(* ... and on the exit paths that go through finish() (stop, handler or hook
+   failure, dropped spawner) such a late message comes from a send that was
+   between its closed-check and its push at the moment the mailbox closed *)
+Theorem late_only_overlap c es s x :
+  steps (init c) es = Some s -> (pc s = PPostStop x \/ pc s = PGone (FExit x)) ->
+  incl (late s) (overlap s).
+Proof.
+  intros H Hp. destruct (reachable_inv _ _ _ H) as [A B C D K L J1 J2].
+  assert (Hf : finishing (pc s) = true) by (destruct Hp as [-> | ->]; reflexivity).
+  destruct (J2 Hf) as [_ Hl]. exact Hl.
+Qed.
+
+Corollary call_answered_quiet c es s x :
+  steps (init c) es = Some s -> pc s = PGone (FExit x) -> overlap s = [] ->
+  forall m, In m (accepted s) -> In m (released s).
+Proof.
+  intros H Hp Ho m Hm.
+  assert (Hg : is_gone s = true) by (unfold is_gone; rewrite Hp; reflexivity).
+  destruct (call_answered _ _ _ H Hg m Hm) as [Hr|Hl]; [exact Hr|].
+  pose proof (late_only_overlap _ _ _ x H (or_intror Hp)) as Hi.
+  apply Hi in Hl. rewrite Ho in Hl. destruct Hl.
+Qed.
